@@ -321,6 +321,25 @@ pub fn number_position_docs(max_digits: usize) -> Vec<Vec<u8>> {
     out
 }
 
+/// digit run of every length 0..=max_run followed by every N10 string up to `tail_len`
+/// (so every malformed continuation is tried at every alignment of the number scanners)
+pub fn digit_run_tail_family(name: &str, max_run: u64, tail_len: u32, pre: &'static [u8], post: &'static [u8], dc: DocCheck) -> Family {
+    let k = gen::N10.len() as u64;
+    let tails = gen::seq_count(k, tail_len);
+    Family::new(name, (max_run + 1) * tails, move |idx, ctx| {
+        let run = idx / tails;
+        let mut seq = vec![];
+        gen::nth_seq(k, tail_len, idx % tails, &mut seq);
+        let mut tail = vec![];
+        gen::concat(gen::N10, &seq, &mut tail);
+        let mut doc = pre.to_vec();
+        doc.extend((0..run).map(|i| b'1' + (i % 9) as u8));
+        doc.extend_from_slice(&tail);
+        doc.extend_from_slice(post);
+        check_doc(ctx, &doc, &dc);
+    })
+}
+
 pub fn nesting_docs(max: usize) -> Vec<Vec<u8>> {
     let mut out = vec![];
     let mut ns: Vec<usize> = (1..=max.min(140)).collect();
@@ -383,6 +402,8 @@ pub fn families(tier: Tier, _variant: &str, mode: Mode) -> Vec<Family> {
             check_doc(ctx, doc, &d)
         }));
     }
+    v.push(digit_run_tail_family("digit-run+n10-tail", if q { 70 } else { 140 }, if q { 4 } else { 5 }, b"", b"", dc(f2)));
+    v.push(digit_run_tail_family("digit-run+n10-tail/element", if q { 70 } else { 140 }, if q { 2 } else { 3 }, b"[", b",2]", dc(f2)));
     {
         let d = DocCheck { mode, framings: f2, decode: true, skip: true, selfcheck: false };
         v.push(Family::of_vec("nesting", nesting_docs(if q { 300 } else { 2000 }), move |doc, ctx| {
